@@ -16,3 +16,11 @@ open Nitime.C07.Props
 #print axioms fixSigns_residual
 #print axioms concentration_unit_interval
 #print axioms inverse_iteration_step
+#print axioms generated_matrix_is_slepian
+#print axioms generated_structure
+#print axioms generated_r_is_twice_sinc
+#print axioms dpss_matrix_commutes_with_sinc
+#print axioms taper_is_sinc_eigvec
+#print axioms taper_eigenspace_one_dim
+#print axioms tapers_orthogonal
+#print axioms concentration_in_unit_interval
